@@ -6,7 +6,6 @@
 From V.model Require Import Base RelLex RelParse RelAcc.
 From V.model Require RelEdit.
 From V.proofs Require Import BaseP.
-Set Default Timeout 60.
 
 Module ED := RelEdit.
 
